@@ -1414,7 +1414,7 @@ fn enumerate(tier: Tier, skipped: &mut BTreeMap<String, u64>) -> Vec<Scenario> {
     }
     // (4d) a middleware that rewrites the query of what it forwards sits in front of the parked handlers: every
     //     cause with a handler parked inline / off the reader, on every entry point; two connections (quick: a
-    //     covering selection of ordered pairs, thorough: every ordered pair of such cells), one shared token too
+    //     covering selection of ordered pairs, thorough: every ordered pair of such cells)
     {
         let parked: Vec<Cell> = cells(true, true).into_iter().filter(|c| matches!(c.phase, Phase::Inline | Phase::Off)).collect();
         for &variant in &VARIANTS {
@@ -1429,7 +1429,8 @@ fn enumerate(tier: Tier, skipped: &mut BTreeMap<String, u64>) -> Vec<Scenario> {
                 if tier == Tier::Quick && (i * 5 + 1) % parked.len() != j {
                     continue;
                 }
-                v.push(mem_rewriting(Variant::CancelHandshake, vec![*a, *b], (i + j) % 2 == 0, (i + j) % 3 == 0));
+                // (each connection under its own token, as in (2): a shared token would let one cell's cause end the other)
+                v.push(mem_rewriting(Variant::CancelHandshake, vec![*a, *b], false, (i + j) % 3 == 0));
             }
         }
     }
@@ -1450,7 +1451,7 @@ fn enumerate(tier: Tier, skipped: &mut BTreeMap<String, u64>) -> Vec<Scenario> {
                 if tier == Tier::Quick && (i * 3 + 1) % full.len() != j {
                     continue;
                 }
-                v.push(mem_outbound1(Variant::CancelHandshake, vec![*a, *b], (i + j) % 2 == 0, (i + j) % 3 == 0));
+                v.push(mem_outbound1(Variant::CancelHandshake, vec![*a, *b], false, (i + j) % 3 == 0));
             }
         }
     }
